@@ -360,6 +360,9 @@ func parseMultilayerExtension(r *bits.EBSPReader) (*MultilayerExtension, error) 
 		ext.ScalingListRefLayerId = uint8(r.Read(6))
 	}
 	ext.NumRefLocOffsets = r.ReadExpGolomb()
+	if ext.NumRefLocOffsets > 63 {
+		return nil, fmt.Errorf("num_ref_loc_offsets %d is larger than 63", ext.NumRefLocOffsets)
+	}
 	ext.RefLocOffsets = make(map[uint8]RefLocOffset, int(ext.NumRefLocOffsets))
 	for i := uint(0); i < ext.NumRefLocOffsets; i++ {
 		ext.RefLocOffsetLayerIds = append(ext.RefLocOffsetLayerIds, uint8(r.Read(6)))
